@@ -4542,3 +4542,66 @@ def shr6(ctx):
     if n < 1:
         raise AnchorMissing("SHR-6: no extension loop bounded by unwrap_or(..) found in context_match_option")
     return r
+
+
+# ---------------------------------------------------------------- SUP-10: `[tone: 0]` is a test, no tone modifier is none
+
+def sup10(ctx, unit=None, prefixes=("asca::subrule::SubRule::", "asca::word::Word::"), floor=7):
+    """`%:[tone: 0]` matches only toneless syllables; a matrix without a tone modifier matches any. The tone modifier is an
+    `Option<Tone>`: the matchers look at it through `if let Some(t)` / `as_ref()`, never through `unwrap_or_default()` /
+    `unwrap_or(0)` / `map_or(0, ..)`, which make `Some(0)` and `None` the same thing."""
+    r = RuleResult("SUP-10", "matchers read the tone modifier (Option<Tone>) with `if let Some(..)` / as_ref, never by defaulting it (unwrap_or_default / unwrap_or / map_or): `[tone: 0]` and no tone modifier stay different", floor=floor)
+    lib = unit or ctx.lib
+    DEFAULTING = {"unwrap_or_default", "unwrap_or", "unwrap_or_else", "map_or", "map_or_else", "is_some_and", "is_none_or"}
+    n = 0
+    for b in lib.bodies:
+        if b.in_test_mod() or not b.hir or b.kind == "closure" or not b.path.startswith(tuple(prefixes)):
+            continue
+        k = 0
+        for x in hirq.walk(b.hir["body"]):
+            if x["e"] != "mcall" or "Option<u16>" not in (x.get("rty") or ""):
+                continue
+            # is the receiver a tone modifier? a field / parameter / local called `tone`
+            names = {y.get("name") for y in hirq.walk(x["recv"]) if y["e"] == "field"} | {y.get("local") for y in hirq.walk(x["recv"]) if y["e"] == "path"}
+            if "tone" not in names:
+                continue
+            n += 1
+            bad = x["name"] in DEFAULTING
+            short = b.path.rsplit("::", 1)[-1]
+            r.inst("%s: tone modifier read #%d through `%s`" % (short, k, x["name"]), fn_loc(b, x.get("ln")), "report" if bad else "ok")
+            if bad:
+                r.report("SUP-10|%s|#%d" % (short, k), fn_loc(b, x.get("ln")), b.path,
+                         "the tone modifier is read through `%s`, which turns an absent modifier and `[tone: 0]` into the same value: `%%:[tone:0] > [tone:3]` then matches every syllable (`tak5.ta` becomes `tak3.ta3` instead of `tak5.ta3`)" % x["name"])
+            k += 1
+    if n < floor:
+        raise AnchorMissing("SUP-10: %d reads of a tone modifier found in the matchers (expected >= %d)" % (n, floor))
+    return r
+
+
+# ---------------------------------------------------------------- SUP-11: a literal with modifiers is tested on all tiers
+
+def sup11(ctx):
+    """`a:[tone: 5]`: a literal with a modifier list is expanded to a full matrix and handed to the matrix matcher, which
+    tests features, nodes and the three suprasegmental tiers. In match_ipa_with_modifiers (and the alias twin) every
+    return that is not an error propagation comes out of match_modifiers / alias_match_modifiers: a "fast path" that
+    compares the segment and calls some of the tier matchers itself forgets the others (tone)."""
+    r = RuleResult("SUP-11", "match_ipa_with_modifiers / alias_match_ipa_with_mods: every non-error return passes the full matrix matcher (match_modifiers / alias_match_modifiers) -- no partial fast path", floor=2)
+    lib = ctx.lib
+    for path, full in (("asca::subrule::SubRule::match_ipa_with_modifiers", ("asca::subrule::SubRule::match_modifiers",)),
+                       ("asca::word::Word::alias_match_ipa_with_mods", ("asca::word::Word::alias_match_modifiers",))):
+        b = ctx.fn(lib, path)
+        cfg = b.cfg
+        calls = list(b.calls())
+        F = {i for i, t in calls if (callee_path(t) or "") in full}
+        if not F:
+            raise AnchorMissing("SUP-11: %s does not call %s" % (path, full[0].rsplit("::", 1)[-1]))
+        errs = {i for i, t in calls if "from_residual" in (callee_path(t) or "")}
+        rets = {i for i, bl in enumerate(b.blocks) if bl["t"]["k"] == "return" and not bl.get("cleanup")}
+        reach = cfg.reachable_from(0, avoid=F | errs)
+        bad = sorted(x for x in reach if x in rets)
+        short = path.rsplit("::", 1)[-1]
+        r.inst("%s: every non-error return comes out of %s" % (short, full[0].rsplit("::", 1)[-1]), fn_loc(b), "ok" if not bad else "report")
+        if bad:
+            r.report("SUP-11|%s" % short, fn_loc(b), path,
+                     "%s can return without going through %s: a shortcut that compares the segment and calls only some of the tier matchers skips the rest -- `a:[tone:5] > e` then matches `a` in a syllable of any tone (`tak5.ta` becomes `tek5.te`)" % (short, full[0].rsplit("::", 1)[-1]))
+    return r
